@@ -1172,9 +1172,9 @@ func formatWith(w *WithClause, f *formatter) string {
 	}
 	ctes := make([]string, len(w.CTEs))
 	for i, cte := range w.CTEs {
-		s := cte.Name + " "
+		s := safeIdentifier(cte.Name) + " "
 		if len(cte.Columns) > 0 {
-			s += "(" + strings.Join(cte.Columns, ", ") + ") "
+			s += "(" + strings.Join(safeIdentifiers(cte.Columns), ", ") + ") "
 		}
 		s += f.kw("AS") + " "
 		if cte.Materialized != nil {
